@@ -40,6 +40,9 @@ type issued struct {
 	stamp  int64  // logical clock when the call was issued
 	at     time.Time // virtual time when the call was issued
 	settle string // != "": the master the command must reach (settle probe)
+	after  string // kind of step the settle probe follows
+	group  string // settle probes are judged per batch: a wire that died (killed connection) fails one command before it is re-dialled
+	err    string // outcome of the call
 	step   int
 }
 
@@ -184,22 +187,33 @@ func (w *world) emit(channel, msg string, only func(*sentinelCfg) bool) int {
 	return n
 }
 
-func (w *world) traffic(client rueidis.Client, step int, class string, n int, settle string) {
+func (w *world) traffic(client rueidis.Client, step int, class string, n int, settle string, after ...string) {
 	for i := 0; i < n; i++ {
 		w.mu.Lock()
 		w.seq++
 		seq := w.seq
 		uid := fmt.Sprintf("%s-%s-%d", w.name, class, seq)
-		w.issued[uid] = &issued{class: class, stamp: mon.Stamp(), at: time.Now(), settle: settle, step: step}
+		is := &issued{class: class, stamp: mon.Stamp(), at: time.Now(), settle: settle, step: step}
+		if len(after) > 0 {
+			is.after = after[0]
+			is.group = fmt.Sprintf("%s/%d/%s", w.name, step, after[0])
+		}
+		w.issued[uid] = is
 		w.mu.Unlock()
 		key := fmt.Sprintf("k%d", seq%5)
 		ctx, cancel := context.WithTimeout(context.Background(), 3*time.Second)
+		var err error
 		if class == "w" {
-			client.Do(ctx, client.B().Arbitrary("VERIF.WRITE").Keys(key).Args(uid).Build())
+			err = client.Do(ctx, client.B().Arbitrary("VERIF.WRITE").Keys(key).Args(uid).Build()).Error()
 		} else {
-			client.Do(ctx, client.B().Arbitrary("VERIF.ECHO").Keys(key).Args(uid).ReadOnly())
+			err = client.Do(ctx, client.B().Arbitrary("VERIF.ECHO").Keys(key).Args(uid).ReadOnly()).Error()
 		}
 		cancel()
+		if err != nil {
+			w.mu.Lock()
+			is.err = err.Error()
+			w.mu.Unlock()
+		}
 	}
 }
 
@@ -233,8 +247,6 @@ func oneHistory(run *mon.Run, t *testing.T, idx int, seed int64) {
 
 func history(run *mon.Run, name string, seed int64) (res caseResult) {
 	rng := rand.New(rand.NewSource(seed))
-	rueidis.VerifSetQueueType("flowbuffer")
-	defer rueidis.VerifSetQueueType("")
 
 	srv := fakeredis.New(fakeredis.Options{Seed: seed, LogReplies: true})
 	idxm := map[string]*fakeredis.Node{}
@@ -343,6 +355,14 @@ func history(run *mon.Run, name string, seed int64) (res caseResult) {
 
 	var kinds []string
 	delivered, settleProbes := 0, 0
+	settled := true // the client is known to be on w.cur (initially, and after a delivered +switch-master)
+	stay := func(st int, after string) {
+		// events that do not move the master must leave the client on it
+		if settled && w.mode != 1 {
+			synctest.Wait()
+			w.traffic(client, st, "w", 6, w.cur, after)
+		}
+	}
 	stopBg := make(chan struct{})
 	var bg sync.WaitGroup
 	if rng.Intn(2) == 0 {
@@ -462,11 +482,13 @@ func history(run *mon.Run, name string, seed int64) (res caseResult) {
 				run.Observe("switch_master_delivered", 1)
 				time.Sleep(time.Second) // bounded virtual time for the client to act on the event
 				synctest.Wait()
+				settled = true
 				if w.mode != 1 {
-					w.traffic(client, st, "w", 3, next)
-					settleProbes += 3
+					w.traffic(client, st, "w", 6, next, "failover")
+					settleProbes += 6
 				}
 			} else {
+				settled = false
 				run.Observe("switch_master_not_delivered", 1)
 			}
 		case 4: // the sentinel the client talks to dies
@@ -497,6 +519,7 @@ func history(run *mon.Run, name string, seed int64) (res caseResult) {
 			run.Observe("sentinel_lost", 1)
 			kinds = append(kinds, "s")
 			time.Sleep(100 * time.Millisecond)
+			stay(st, "sentinel-lost")
 		case 5: // burst of events that must not move the client anywhere wrong (other sets, replicas, new sentinels)
 			n := 1 + rng.Intn(8)
 			for b := 0; b < n; b++ {
@@ -519,6 +542,7 @@ func history(run *mon.Run, name string, seed int64) (res caseResult) {
 			run.Observe("noise_events", int64(n))
 			kinds = append(kinds, "n")
 			time.Sleep(50 * time.Millisecond)
+			stay(st, "noise-events")
 		case 6: // a replica goes s_down (sometimes also unreachable), another may come back
 			if len(w.data) < 3 {
 				continue
@@ -574,6 +598,7 @@ func history(run *mon.Run, name string, seed int64) (res caseResult) {
 			run.Observe("replica_sdown", 1)
 			kinds = append(kinds, "r")
 			time.Sleep(100 * time.Millisecond)
+			stay(st, "replica-sdown")
 		case 7: // connections to the data nodes drop; the client re-dials the same address
 			srv.KillAll(w.cur)
 			run.Observe("data_conn_kills", 1)
@@ -731,19 +756,56 @@ func (w *world) judge(log []fakeredis.Event) (nodesHit int) {
 			}
 		}
 	}
-	// settle probes: issued a bounded virtual time after a delivered +switch-master whose target answers master
+	// settle probes: issued a bounded virtual time after a delivered +switch-master whose target answers master, or after
+	// events that do not move the master; judged per batch of 6 (more than the wires of one connection)
+	type batch struct {
+		expected, after string
+		step            int
+		n, ok           int
+		other           []string
+		errs            []string
+		first           int64
+	}
+	batches := map[string]*batch{}
 	for uid, is := range w.issued {
 		if is.settle == "" {
 			continue
 		}
 		run.Observe("settle_probes", 1)
-		if got := reached[uid]; got != is.settle {
-			if got == "" {
-				got = "nowhere"
-			}
-			run.Violation("not-settled-on-new-master", fmt.Sprintf("mode=%d reached=%s", w.mode, map[bool]string{true: "nowhere", false: "other-node"}[got == "nowhere"]),
-				map[string]any{"case": w.name, "uid": uid, "expected": is.settle, "reached": got, "step": is.step, "issued_at": is.stamp, "trace": w.trace, "log": compact()})
+		b := batches[is.group]
+		if b == nil {
+			b = &batch{expected: is.settle, after: is.after, step: is.step, first: is.stamp}
+			batches[is.group] = b
 		}
+		if is.stamp < b.first {
+			b.first = is.stamp
+		}
+		b.n++
+		switch got := reached[uid]; {
+		case got == is.settle:
+			b.ok++
+		case got != "":
+			b.other = append(b.other, uid+"->"+got)
+		default:
+			b.errs = append(b.errs, is.err)
+		}
+	}
+	for _, b := range batches {
+		how := ""
+		switch {
+		case len(b.other) > 0:
+			how = "other-node"
+		case b.ok == 0:
+			how = "nowhere"
+		default:
+			continue
+		}
+		class := "not-settled-on-new-master"
+		if b.after != "failover" {
+			class = "left-the-master-without-a-switch"
+		}
+		run.Violation(class, fmt.Sprintf("mode=%d reached=%s after=%s", w.mode, how, b.after),
+			map[string]any{"case": w.name, "expected": b.expected, "probes": b.n, "reached_expected": b.ok, "reached_other": b.other, "call_errors": b.errs, "step": b.step, "issued_at": b.first, "trace": w.trace, "log": compact()})
 	}
 	return len(hit)
 }
@@ -754,11 +816,12 @@ func TestC23(t *testing.T) {
 		"one real sentinel client per synctest bubble against fakeredis: 1 master + 1-3 replicas, 1-5 sentinels (some down, some stale), client mode master-only / ReplicaOnly / SendToReplicas, "+
 			"3-8 steps drawn from {traffic, fail-over with +switch-master (clean / new master answering ROLE slave 1-2 times / stale sentinels + crashed old master, events in bursts), loss of the sentinel in use, "+
 			"bursts of unrelated events (+sdown/-sdown/+reboot/+sentinel/other set), replica s_down with a replica claiming master once, data connections killed}, optional concurrent traffic; every user command carries a unique id; "+
-			"the oracle replays the server log: role last answered by the receiving node, addresses named by sentinels, where the post-switch probes arrived. A case is one history; non-trivial when a +switch-master was delivered and traffic reached >= 2 nodes")
+			"the oracle replays the server log: role last answered by the receiving node, addresses named by sentinels, where the post-switch probes arrived; plus a real-time probe of event bursts of 8 and 40 during a refresh. A case is one history; non-trivial when a +switch-master was delivered and traffic reached >= 2 nodes")
 	defer run.Finish()
+	rueidis.VerifSetQueueType("flowbuffer") // set once: pipes are created from background goroutines too
 	run.Assume("fakeredis sentinel/ROLE emulation and its log order (one lock) are the ground truth",
 		"a command received on a connection that was opened before the node's wrong-role answer is treated as in flight (not judged)",
-		"bursts stay below the 16-message buffer of a rueidis subscription (see C26-K1)")
+		"inside the bubbles bursts stay below the 16-message buffer of a rueidis subscription; the larger burst is probed separately in real time with a structural (goroutine-cycle) verdict")
 	seeds := run.Rand("cases")
 	n := run.N(600, 12000)
 	only := os.Getenv("VERIF_C23_CASE")
@@ -769,5 +832,9 @@ func TestC23(t *testing.T) {
 		}
 		oneHistory(run, t, i, sd)
 	}
-	run.Require("master_traffic_checked", "slave_traffic_checked", "switch_master_delivered", "settle_probes", "failovers_with_role_flip", "failovers_with_stale_sentinels", "sentinel_lost", "role_answers")
+	if only == "" {
+		burstProbe(run, 8)
+		burstProbe(run, 40)
+	}
+	run.Require("burst_probe_refresh_completed", "master_traffic_checked", "slave_traffic_checked", "switch_master_delivered", "settle_probes", "failovers_with_role_flip", "failovers_with_stale_sentinels", "sentinel_lost", "role_answers")
 }
